@@ -6,9 +6,11 @@
 mod c04;
 mod c05;
 mod c08;
+mod ckey;
 mod c12;
 mod rng;
 mod sched;
+mod store;
 mod util;
 
 use std::collections::HashMap;
@@ -68,6 +70,10 @@ fn main() {
         ("c05", "gen") => c05::gen(&args),
         ("c05", "exec") => c05::exec(&args),
         ("c08", "gen") => c08::gen(&args),
+        ("ckey", "gen") => ckey::gen(&args),
+        ("store", "gen") => store::gen(&args),
+        ("store", "exec") => store::exec(&args),
+        ("ckey", "exec") => ckey::exec(&args),
         ("c08", "exec") => c08::exec(&args),
         ("c12", "gen") => c12::gen(&args),
         ("c12", "exec") => c12::exec(&args),
